@@ -616,6 +616,10 @@ func (e *Engine) strSplit(st *State, c ssa.CallInstruction, s, sep StrV, n int) 
 		limit = n - 1
 	}
 	rs := e.scanMatches(st, s, sep, limit)
+	if len(rs) == 0 {
+		st.done = true // infeasible state
+		return nil
+	}
 	var out []*State
 	for _, r := range rs {
 		var parts []Value
@@ -639,6 +643,10 @@ func (e *Engine) strReplaceAll(st *State, c ssa.CallInstruction, s, old, nw StrV
 		e.fail("strings.ReplaceAll with empty old")
 	}
 	rs := e.scanMatches(st, s, old, -1)
+	if len(rs) == 0 {
+		st.done = true // infeasible state
+		return nil
+	}
 	var out []*State
 	for _, r := range rs {
 		var b []*Term
